@@ -178,3 +178,45 @@ def make_rename_twin(src_pkg, dst_root):
     p.write_text(new)
     total += n
   return dst, total
+
+
+def _reorder_class(cls_node):
+  """Reverses the order of the plain (undecorated) methods of a class among
+  the positions they occupy; everything else stays where it is."""
+  used = set()
+  for st in cls_node.body:
+    if not isinstance(st, (ast.FunctionDef, ast.AsyncFunctionDef)):
+      for n in ast.walk(st):
+        if isinstance(n, ast.Name):
+          used.add(n.id)
+    else:
+      for d in st.decorator_list:
+        for n in ast.walk(d):
+          if isinstance(n, ast.Name):
+            used.add(n.id)
+      for dflt in st.args.defaults + [x for x in st.args.kw_defaults if x is not None]:
+        for n in ast.walk(dflt):
+          if isinstance(n, ast.Name):
+            used.add(n.id)
+  names = [st.name for st in cls_node.body if isinstance(st, ast.FunctionDef)]
+  idx = [i for i, st in enumerate(cls_node.body)
+         if isinstance(st, ast.FunctionDef) and not st.decorator_list and
+         st.name not in used and names.count(st.name) == 1]
+  meths = [cls_node.body[i] for i in idx]
+  for i, m in zip(idx, reversed(meths)):
+    cls_node.body[i] = m
+  return len(idx)
+
+
+def make_reorder_twin(src_pkg, dst_root):
+  """Twin with the plain methods of every class in reverse order."""
+  dst = pathlib.Path(dst_root) / pathlib.Path(src_pkg).name
+  shutil.copytree(src_pkg, dst)
+  total = 0
+  for p in dst.rglob('*.py'):
+    tree = ast.parse(p.read_text())
+    for n in ast.walk(tree):
+      if isinstance(n, ast.ClassDef):
+        total += _reorder_class(n)
+    p.write_text(ast.unparse(tree) + '\n')
+  return dst, total
